@@ -104,7 +104,9 @@ func caFor(i int) *Tmpl {
 	return &t
 }
 
-func ut(y int, m time.Month, d, h, mi, s int) int64 { return time.Date(y, m, d, h, mi, s, 0, time.UTC).Unix() }
+func ut(y int, m time.Month, d, h, mi, s int) int64 {
+	return time.Date(y, m, d, h, mi, s, 0, time.UTC).Unix()
+}
 
 func bigOf(s string) *big.Int {
 	b, ok := new(big.Int).SetString(s, 10)
